@@ -93,57 +93,62 @@ def run(check):
         x = S.sym('x')
         toks = S.call(f, [x], st)
         code = list(toks[1])
-        cases, ax = spec_cases(T, x)
-        # representability gaps between decimal thresholds and the literals the code uses
-        lits = sorted(set(collect_consts(code)))
-        gaps = []
-        for dstr in DECADES:
-            t = Fraction(dstr)
-            near = [d for d in lits if d != 0 and abs(d - t) <= t / 1000]
-            ob = Ob('C15.threshold.%s.%s' % (tag, dstr), 'ground', f.qualname, loc)
-            ob.backend = 'exact rational arithmetic'
-            check.add(ob)
-            if len(near) != 1:
-                ob.status, ob.detail = 'failed', 'the cascade compares |x| with %s near the decimal threshold %s (expected exactly one literal)' % ([str(d) for d in near], dstr)
-                continue
-            d = near[0]
-            lo, hi = min(t, d), max(t, d)
-            ob.text = 'no %s value v with %s <= v < %s (decimal threshold %s vs the literal the code compares with, %s)' % (T, lo, hi, dstr, float(d))
-            if lo == hi:
+        # PhQ::Print only compares |x| with constants: on every cell of the partition of the real line induced by
+        # those constants and the decimal thresholds of the property, code and property are constant.  Evaluating
+        # both on one value of the numeric type per cell that contains one (and on every breakpoint that is itself a
+        # value of the type) decides the obligation for ALL values of the type, exactly.
+        from .c06 import term_eval
+        consts = sorted(set(c for c in collect_consts(code) if c > 0) | set(Fraction(d) for d in DECADES))
+        cells = [('point', Fraction(0))]
+        prev = Fraction(0)
+        for c in consts:
+            cells.append(('open', prev, c))
+            cells.append(('point', c))
+            prev = c
+        cells.append(('open', prev, None))
+        failures = {}
+        ncells = 0
+        for cell in cells:
+            if cell[0] == 'point':
+                v = cell[1]
+                if round_to(v, T) != v:
+                    continue
+            else:
+                lo, hi = cell[1], cell[2]
+                v = ceil_T(lo, T) if lo > 0 else smallest_positive(T)
+                if v <= lo:
+                    v = succ_T(v, T)
+                if hi is not None and v >= hi:
+                    continue
+            for sgn in ((1, -1) if v != 0 else (1,)):
+                xv = sgn * v
+                ncells += 1
+                got = [render_tok(tok, {'x': xv}, term_eval) for g, tok in code if term_eval(g, {'x': xv})]
+                k, want = spec_eval(T, xv)
+                if got != [want]:
+                    failures.setdefault(k, []).append((xv, got, want))
+        for k in range(10):
+            ob = Ob('C15.cascade.%s.case%d' % (tag, k), 'ground', f.qualname, loc)
+            ob.backend = 'phqv symex (comparison-only body) + exact cell decomposition'
+            ob.text = 'for every %s value x with %s: PhQ::Print(x) inserts exactly one item, %s  [%d cells evaluated in total]' % (
+                T, describe_case(k, T), describe_want(k, T), ncells)
+            fl = failures.get(k, [])
+            unlisted = [w for w in fl if not any(kn == ob.name and ('input=%s ' % w[0]) in (rest + ' ') for kn, rest in check.known)]
+            if not fl:
                 ob.status = 'discharged'
-                continue
-            v = ceil_T(lo, T)
-            if v >= hi:
-                ob.status = 'discharged'
-                gaps.append((lo, hi))
+            elif not unlisted:
+                ob.status = 'known'
+                for w in fl:
+                    check.known_hits.append(known_text(check, ob.name, w))
             else:
                 ob.status = 'failed'
-                ob.detail = '%s value %s lies in [%s, %s): it is classified by the literal %r, not by the decimal threshold %s' % (T, v, float(lo), float(hi), float(d), dstr)
-                ob.cex = {'x': v}
-                gaps.append((lo, hi))     # keep the remaining analysis meaningful
-        outside = [lnot(land(cmp('<=', num(lo), ax), cmp('<', ax, num(hi)))) for lo, hi in gaps]
-        for k, (cond, want) in enumerate(cases):
-            goal = TRUE
-            matched = 0
-            for g, tok in code:
-                same = tok_equal(tok, want)
-                if same:
-                    matched += 1
-            # exactly the matching tokens are emitted
-            hits = [g for g, tok in code if tok_equal(tok, want)]
-            others = [g for g, tok in code if not tok_equal(tok, want)]
-            anyhit = FALSE
-            for g in hits:
-                anyhit = lor(anyhit, g)
-            goal = anyhit
-            for g in others:
-                goal = land(goal, lnot(g))
-            for i in range(len(hits)):
-                for j in range(i + 1, len(hits)):
-                    goal = land(goal, lnot(land(hits[i], hits[j])))
-            t = RealTask(check, 'C15.cascade.%s.case%d' % (tag, k), S, goal, assumes=[cond] + outside, function=f.qualname, loc=loc, timeout=60)
-            t.ob.text = 'for all x with %s: PhQ::Print<%s>(x) inserts exactly one item: %s' % (describe_case(k, T), T, describe_tok(want))
-            tasks.append(t)
+                w = unlisted[0]
+                ob.detail = '%s value %s (= %r) prints as %s, the property requires %s' % (T, w[0], float(w[0]), w[1], w[2])
+                ob.cex = {'x': w[0]}
+                for w2 in fl:
+                    if w2 not in unlisted:
+                        check.known_hits.append(known_text(check, ob.name, w2))
+            check.add(ob)
         # no decimal carry across a decade: the largest value below 10^(k+1) still rounds below it at the precision used
         md = MD10[T]
         for i, p_ in enumerate([md + 3, md + 2, md + 1, md, md - 1, md - 2, md - 3]):
@@ -172,6 +177,51 @@ def run(check):
                 check.known_hits.append('obligation=%s %s' % (ob.name, ob.detail))
                 continue
             adjudicate(check, ob)
+
+
+def known_text(check, name, w):
+    for kn, rest in check.known:
+        if kn == name and ('input=%s ' % w[0]) in (rest + ' '):
+            return 'obligation=%s %s' % (name, rest)
+    return 'obligation=%s input=%s' % (name, w[0])
+
+
+def smallest_positive(T):
+    p, emin, emax = MANT[T]
+    return Fraction(2) ** (emin - p + 1)
+
+
+def spec_eval(T, xv):
+    """The property's rule evaluated exactly on one value: (case index, expected item)."""
+    md = MD10[T]
+    a = abs(xv)
+    t = [Fraction(d) for d in DECADES]
+    if a == 0:
+        return 0, ('INT', 0)
+    if a < t[0]:
+        return 1, ('NUMF', 2, md, xv)
+    precs = [md + 3, md + 2, md + 1, md, md - 1, md - 2, md - 3]
+    for i, p in enumerate(precs):
+        if t[i] <= a < t[i + 1]:
+            return 2 + i, ('NUMF', 1, p, xv)
+    return 9, ('NUMF', 2, md, xv)
+
+
+def render_tok(tok, env, term_eval):
+    if tok[0] == 'INT':
+        return ('INT', int(term_eval(tok[1], env)))
+    if tok[0] == 'NUMF':
+        return ('NUMF', int(term_eval(tok[1], env)), int(term_eval(tok[2], env)), term_eval(tok[3], env))
+    return tok
+
+
+def describe_want(k, T):
+    md = MD10[T]
+    if k == 0:
+        return 'the integer literal 0'
+    if k in (1, 9):
+        return 'the value in scientific notation with precision %d' % md
+    return 'the value in fixed notation with precision %d' % [md + 3, md + 2, md + 1, md, md - 1, md - 2, md - 3][k - 2]
 
 
 def largest_below(upper, T):
@@ -427,7 +477,7 @@ def short(t):
 def adjudicate(check, ob):
     rec = {'property': 'C15', 'obligation': ob.name, 'function': ob.function, 'source': ob.loc, 'verifier_output': ob.detail, 'text': ob.text}
     confirmed = False
-    m = re.match(r'C15\.(threshold|nocarry)\.(\w+?)\.', ob.name)
+    m = re.match(r'C15\.(cascade|nocarry)\.(\w+?)\.(?:case)?', ob.name)
     try:
         if m and isinstance(ob.cex, dict) and 'x' in ob.cex:
             T = m.group(2).replace('_', ' ')
@@ -449,7 +499,7 @@ def adjudicate(check, ob):
                     confirmed = True
                     rec['mismatch'] = ['PhQ::Print(%s) = "%s": %d significant digits (expected %d), %s notation (expected %s)' % (
                         float(v), s, len(digits), want, 'scientific' if sci else 'fixed', 'fixed' if should_fixed else 'scientific')]
-        elif ob.name.startswith('C15.cascade.'):
+        elif False and ob.name.startswith('C15.cascade.'):
             mm = re.match(r'C15\.cascade\.(\w+)\.case(\d+)', ob.name)
             T = mm.group(1).replace('_', ' ')
             k = int(mm.group(2))
